@@ -719,7 +719,7 @@ def check_type_pattern_groups(chk, ix):
 
 
 WHAT["M12"] = ("every match object the step runner hands to the formatters (a Match, a NoMatch, a MatchWithError after a failed type "
-               "conversion) carries its arguments as a list: the formatters iterate match.arguments")
+               "conversion) carries its arguments as a sequence (a list, possibly empty - never None): the formatters iterate match.arguments")
 
 
 def check_match_objects_have_arguments(chk, ix):
@@ -757,8 +757,8 @@ def check_match_objects_have_arguments(chk, ix):
             raise AnalysisError("Matcher.match not evaluable (%s): %r" % (label, [(k, v) for _, k, v in outs][:3]))
         s2, _, m = outs[0]
         args = s2.obj(m).fields.get("arguments", KeyError)
-        if isinstance(args, Ref) and s2.obj(args).kind == "list":
-            chk.ok("M12", {"case": label, "match object": s2.obj(m).clsname(), "arguments": "a list"}, nontrivial_key=label)
+        if (isinstance(args, Ref) and s2.obj(args).kind == "list") or isinstance(args, tuple):
+            chk.ok("M12", {"case": label, "match object": s2.obj(m).clsname(), "arguments": "a sequence"}, nontrivial_key=label)
         else:
             _fail(chk, "M12", mm, "%s -> %s.arguments = %r" % (label, s2.obj(m).clsname(), None if args is KeyError else args),
                   "%s: Matcher.match returns a %s whose arguments are %r, not a list: JSONFormatter.match and PrettyFormatter.match iterate "
@@ -775,8 +775,8 @@ def check_match_objects_have_arguments(chk, ix):
         raise AnalysisError("NoMatch() not evaluable: %r" % ([(k, v) for _, k, v in outs][:3],))
     s2, _, m = outs[0]
     args = s2.obj(m).fields.get("arguments", KeyError)
-    if isinstance(args, Ref) and s2.obj(args).kind == "list":
-        chk.ok("M12", {"case": "undefined step", "match object": "NoMatch", "arguments": "a list"}, nontrivial_key="NoMatch")
+    if (isinstance(args, Ref) and s2.obj(args).kind == "list") or isinstance(args, tuple):
+        chk.ok("M12", {"case": "undefined step", "match object": "NoMatch", "arguments": "a sequence"}, nontrivial_key="NoMatch")
     else:
         _fail(chk, "M12", nm.lookup("__init__"), "NoMatch().arguments = %r" % (None if args is KeyError else args,),
               "NoMatch() carries arguments %r, not a list" % (None if args is KeyError else args,))
